@@ -258,15 +258,22 @@ func poolTypeOK(p *core.Prog, pi *poolInfo, f *ssa.Function, ta *ssa.TypeAssert)
 		return false
 	}
 	holder := core.NamedOf(top.Signature.Recv().Type())
-	okRedeem := false
+	okRedeem, anyRedeem := false, false
 	for g, T := range pi.redeem {
 		if g.Signature.Recv() != nil && core.NamedOf(g.Signature.Recv().Type()) == holder {
+			anyRedeem = true
 			if types.Identical(T, ta.AssertedType) {
 				okRedeem = true
 			} else {
 				return false
 			}
 		}
+	}
+	if !anyRedeem {
+		// nothing is ever put into this pool (recycling switched off for it): Get only yields what New allocates —
+		// the asserted type must be the one the borrow function returns
+		res := top.Signature.Results()
+		return res.Len() == 1 && types.Identical(res.At(0).Type(), ta.AssertedType)
 	}
 	return okRedeem
 }
